@@ -11,6 +11,7 @@
 import Signac.Proofs.SyncMore
 import Signac.Proofs.SyncIdem
 import Signac.Proofs.SyncParallel
+import Signac.Proofs.SyncIdemFull
 namespace Signac.C13
 open Signac Signac.Sync
 
@@ -152,16 +153,175 @@ theorem sync_idempotent_partial (o : Opts) (hdry : o.dry = false)
   exact walk_idempotent o hdry sjob [] djob hwf hok
 
 /-- The full idempotence statement of C13 ("repeating the same sync changes nothing"), including
-    the document merge and the loop over the jobs.  Proved in Lean for the file walk
-    (`sync_idempotent_files`) and for job syncs without document merge (`sync_idempotent_partial`);
-    the remaining part (ByKey / update merges, clone-then-sync at the project level) is checked
-    empirically only: every real call is made twice and the model is compared with the second
-    call as well.  (`o.gate` is an input: with check_schema the real gate may refuse the second
-    call because the first one changed the destination's schema.) -/
+    the document merge and the loop over the jobs, with no hypothesis beyond well-formed trees.
+    As it stands it is FALSE of the model (`sync_idempotent_full_false` below): the model's
+    documents are association lists (duplicate keys possible) and its exclusion tables are
+    arbitrary functions.  With the two facts every real call satisfies — source documents have
+    distinct keys in every mapping, the document pattern matches the job document file and its
+    backup — it is proved: `sync_idempotent_full_partial`.
+    (`o.gate` is an input: with check_schema the real gate may refuse the second call because the
+    first one changed the destination's schema; the harness passes the second call's own gate.) -/
 def sync_idempotent_full : Prop :=
   ∀ (o : Opts) (e : Entry) (w : World), WFEntries w.src → WFEntries w.dst → o.dry = false →
     (run o e w).err = none →
     (run o e (w.after o e)).err = none ∧ (run o e (w.after o e)).d = (w.after o e).dst
+
+/-! ### the unrestricted statement is false of the model: two witnesses -/
+
+/-- Witness 1: realistic tables (`DocPatOk`), `DocSync.ByKey(lambda key: True)`. -/
+def w1Opts : Opts :=
+  { strategy := .none, docSync := .byKey (some fun _ => true), recursive := true,
+    userExcl := fun _ => false,
+    spPat := fun n => n == Extracted.FN_STATE_POINT,
+    docPat := fun n => n == Extracted.FN_JOB_DOCUMENT || n == Extracted.FN_JOB_DOCUMENT ++ "~",
+    selection := none, checkSchema := false, gate := false, dry := false, deep := false, now := 9 }
+
+/-- Two projects without jobs; the source project document is the association list
+    `{"a": {"x": 1}, "a": 5}` — the key `a` twice, which no parsed JSON file can be —, the
+    destination project document is `{"a": {"x": 1}}`. -/
+def w1World : World :=
+  { src := [(Extracted.FN_PROJECT_DOCUMENT,
+      .file ⟨1, 1, 5, some (.obj [("a", .obj [("x", .int 1)]), ("a", .int 5)])⟩)],
+    dst := [(Extracted.FN_PROJECT_DOCUMENT,
+      .file ⟨2, 1, 5, some (.obj [("a", .obj [("x", .int 1)])])⟩)] }
+
+/-- `sync_idempotent_full` is false.  First call: the first `a` is `==` on both sides, the second
+    `a` (5 against a mapping) is a conflict the key strategy resolves by overwriting: destination
+    `{"a": 5}`, no exception.  Second call: the first `a` now meets the integer 5, and iterating
+    the source mapping `{"x": 1}` against an integer is the TypeError of `key in 5`.  An artefact
+    of the model's documents being association lists: excluded by `NodupKeysObj`. -/
+theorem sync_idempotent_full_false : ¬ sync_idempotent_full := by
+  intro h
+  have h2 := (h w1Opts .project w1World
+    (by simp [WFEntries, WFNode, w1World, names]) (by simp [WFEntries, WFNode, w1World, names])
+    rfl (by decide)).1
+  revert h2
+  decide
+
+example : DocPatOk w1Opts := ⟨by decide, by decide⟩
+
+/-- Witness 2: documents with distinct keys, but a document pattern that does NOT match the job
+    document file (impossible for `re.match("signac_job_document.json", ·)`), file strategy
+    `update`, document strategy `update`, and a clock (`now = 1`) that is behind the source
+    file's mtime (5). -/
+def w2Opts : Opts :=
+  { strategy := .update, docSync := .update, recursive := true,
+    userExcl := fun _ => false,
+    spPat := fun n => n == Extracted.FN_STATE_POINT,
+    docPat := fun _ => false,
+    selection := none, checkSchema := false, gate := false, dry := false, deep := false, now := 1 }
+
+def w2SrcJob : Entries :=
+  [(Extracted.FN_JOB_DOCUMENT, .file ⟨1, 1, 5, some (.obj [("a", .int 1)])⟩)]
+
+def w2DstJob : Entries :=
+  [(Extracted.FN_JOB_DOCUMENT, .file ⟨2, 1, 7, some (.obj [("b", .int 2)])⟩)]
+
+def w2World : World :=
+  { src := [(WS, .dir [("j", .dir w2SrcJob)])], dst := [(WS, .dir [("j", .dir w2DstJob)])] }
+
+/-- the content id of the destination job's document file -/
+def w2Probe (es : Entries) : Nat :=
+  match lookupP WS ["j", Extracted.FN_JOB_DOCUMENT] es with
+  | some (.file m) => m.cid
+  | _ => 99
+
+/-- Without `DocPatOk` the file walk and the document merge fight over the document file.  First
+    call: the walk sees two different document files, the destination's is newer (7 > 5), keeps
+    it; the merge writes `{"b": 2, "a": 1}` with mtime `now = 1`.  Second call: now the source's
+    file is newer (5 > 1), the walk overwrites the merged document with a copy of the source's,
+    and key `b` is lost: both calls succeed, the second one changes the destination. -/
+theorem sync_idempotent_needs_docPat :
+    WFEntries w2World.src ∧ WFEntries w2World.dst ∧
+    NodupKeysObj (docOf Extracted.FN_JOB_DOCUMENT w2SrcJob) ∧
+    (run w2Opts (.job "j" "j" 0) w2World).err = none ∧
+    (run w2Opts (.job "j" "j" 0) (w2World.after w2Opts (.job "j" "j" 0))).err = none ∧
+    (run w2Opts (.job "j" "j" 0) (w2World.after w2Opts (.job "j" "j" 0))).d ≠
+      (w2World.after w2Opts (.job "j" "j" 0)).dst := by
+  refine ⟨?_, ?_, ?_, by decide, by decide, ?_⟩
+  · simp [WFEntries, WFNode, w2World, w2SrcJob, names]
+  · simp [WFEntries, WFNode, w2World, w2DstJob, names]
+  · simp [docOf, getE, w2SrcJob, NodupKeysObj, NodupKeysVal]
+  · intro h
+    have := congrArg w2Probe h
+    revert this
+    decide
+
+/-! ### the true variants -/
+
+/-- **Idempotence of the document merge alone**, for `DocSync.update`, `DocSync.ByKey(ks)` with
+    every key strategy `ks` (also none), NO_SYNC and COPY, at any nesting depth: if merging the
+    source document `s` (distinct keys in every mapping) into `d` raised nothing, then merging `s`
+    into the result raises nothing and changes nothing. -/
+theorem doc_merge_idempotent (ds : DocSync) (s d : Doc) (hs : NodupKeysObj s)
+    (hok : (runDocSync ds s d).err = none) :
+    (runDocSync ds s (runDocSync ds s d).doc).err = none ∧
+    (runDocSync ds s (runDocSync ds s d).doc).doc = (runDocSync ds s d).doc :=
+  runDocSync_idem ds s d hs hok
+
+/-- … and nothing is even written the second time by ByKey: the second pass over the same source,
+    for any key strategy, from any starting flags, leaves the document, the `wrote` flag and the
+    type-error flag alone, and records no conflict if the first pass recorded none. -/
+theorem doc_merge_bykey_quiet (ks : Option (String → Bool)) (s d : Doc) (hs : NodupKeysObj s)
+    (hte : (byKeyItems ks "" s ⟨d, [], false, false⟩).typeErr = false) :
+    Quiet (byKeyItems ks "" s ⟨(byKeyItems ks "" s ⟨d, [], false, false⟩).dst, [], false, false⟩)
+      (byKeyItems ks "" s ⟨d, [], false, false⟩).dst [] false (byKeyItems ks "" s ⟨d, [], false, false⟩) :=
+  byKeyItems_quiet ks s hs "" ⟨d, [], false, false⟩ hte _ [] false (fun _ _ => rfl)
+
+/-- Idempotence of the document synchronisation of one directory, with its backup-and-restore
+    context (`create_backup` / in-memory backup), for any document file name. -/
+theorem doc_sync_idempotent (o : Opts) (hdry : o.dry = false) (fn : Name) (src : Entries) (a : Acc)
+    (hs : DocHyp o (docOf fn src)) (hok : (syncDoc o fn src a).err = none) (l : List Step) :
+    (syncDoc o fn src ⟨(syncDoc o fn src a).d, l⟩).d = (syncDoc o fn src a).d ∧
+    (syncDoc o fn src ⟨(syncDoc o fn src a).d, l⟩).err = none :=
+  syncDoc_idem o hdry fn src a hs hok l
+
+/-- **Idempotence of a whole job-level sync** (`sync_jobs(src_job, dst_job)`: file walk, then
+    document merge), for every file strategy (also custom functions), comparison mode, exclusion
+    table, clock value and every document strategy.  Hypothesis `JobHyp o sjob`: the document
+    strategy is NO_SYNC or COPY, or else `DocPatOk o` and the source job document has distinct
+    keys in every mapping.  Extends `sync_idempotent_partial`. -/
+theorem sync_job_idempotent_partial (o : Opts) (hdry : o.dry = false) (sjob djob : Entries)
+    (hwf : WFEntries sjob) (H : JobHyp o sjob) (hok : (syncJobDirs o sjob djob).err = none) :
+    (syncJobDirs o sjob (syncJobDirs o sjob djob).d).d = (syncJobDirs o sjob djob).d ∧
+    (syncJobDirs o sjob (syncJobDirs o sjob djob).d).err = none :=
+  syncJobDirs_idem o hdry sjob djob hwf H hok
+
+/-- A freshly cloned job is a fixed point of `sync_jobs` from its source (what the second project
+    sync meets where the first one cloned). -/
+theorem sync_clone_fixed_point (o : Opts) (sjob : Entries) (hwf : WFEntries sjob)
+    (H : DocHyp o (docOf Extracted.FN_JOB_DOCUMENT sjob)) :
+    (syncJobDirs o sjob (cloneJob o sjob)).d = cloneJob o sjob ∧
+    (syncJobDirs o sjob (cloneJob o sjob)).err = none :=
+  syncJobDirs_noop o sjob _ (clone_stable o sjob hwf H)
+
+/-- **Idempotence of the project-level sync** (project document first, then the clone-or-sync loop
+    over the selected source jobs).  `SyncHyp o src`: the project document satisfies `DocHyp`, and
+    every source job satisfies `JobHyp`. -/
+theorem sync_project_idempotent_partial (o : Opts) (hdry : o.dry = false) (src dst : Entries)
+    (hwf : WFEntries src) (H : SyncHyp o src) (hok : (syncProjects o src dst).err = none) :
+    (syncProjects o src (syncProjects o src dst).d).d = (syncProjects o src dst).d ∧
+    (syncProjects o src (syncProjects o src dst).d).err = none :=
+  syncProjects_idem o hdry src dst hwf H hok
+
+/-- **`sync_idempotent`** — `sync_idempotent_full` with the one extra hypothesis `SyncHyp o w.src`
+    (and without `WFEntries w.dst`, which is not needed): at every entry point, after a successful
+    real sync, repeating the same call raises nothing and changes nothing.  No hypothesis on
+    `o.now`, the mtimes, the strategy function, the key strategy or `o.gate`. -/
+theorem sync_idempotent_full_partial (o : Opts) (e : Entry) (w : World) (hwf : WFEntries w.src)
+    (hdry : o.dry = false) (H : SyncHyp o w.src) (hok : (run o e w).err = none) :
+    (run o e (w.after o e)).err = none ∧ (run o e (w.after o e)).d = (w.after o e).dst :=
+  run_idem o e w hwf hdry H hok
+
+/-- for NO_SYNC and COPY there is no hypothesis at all -/
+theorem sync_idempotent_nomerge (o : Opts) (e : Entry) (w : World) (hwf : WFEntries w.src)
+    (hdry : o.dry = false) (hds : o.docSync = .noSync ∨ o.docSync = .copy)
+    (hok : (run o e w).err = none) :
+    (run o e (w.after o e)).err = none ∧ (run o e (w.after o e)).d = (w.after o e).dst := by
+  apply run_idem o e w hwf hdry _ hok
+  rcases hds with h | h
+  · exact ⟨Or.inl h, fun _ _ _ => Or.inl h⟩
+  · exact ⟨Or.inr (Or.inl h), fun _ _ _ => Or.inr (Or.inl h)⟩
 
 /-! non-vacuity: a concrete pair of jobs satisfying the hypotheses above -/
 
@@ -210,4 +370,73 @@ example : DocOnly [("a", .obj [("x", .int 1)])] [("a", .obj [("y", .int 2)]), ("
     DocOnly [("a", .obj [("x", .int 1)])] [("a", .obj [("y", .int 2)]), ("b", .int 3)] ["b"] :=
   ⟨DocOnly.sub (by decide) (by rfl) (by rfl) (DocOnly.top (by decide)), DocOnly.top (by decide)⟩
 
+/-! non-vacuity of the idempotence hypotheses: two projects with documents on both sides, nested
+    conflicts, a key strategy, one job to synchronise and one to clone -/
+
+def exDocOpts : Opts := { exOpts with docSync := .byKey (some fun k => k == "cfg.n" || k == "a.n") }
+
+def exDocSrcJob : Entries :=
+  exSrcJob ++ [(Extracted.FN_JOB_DOCUMENT,
+    .file ⟨7, 3, 5, some (.obj [("a", .obj [("n", .int 1), ("k", .int 0)]), ("b", .int 2)])⟩)]
+
+def exDocDstJob : Entries :=
+  exDstJob ++ [(Extracted.FN_JOB_DOCUMENT,
+    .file ⟨8, 3, 5, some (.obj [("a", .obj [("n", .int 4)]), ("b", .int 9), ("c", .int 3)])⟩)]
+
+def exDocWorld : World :=
+  { src := [(Extracted.FN_PROJECT_DOCUMENT,
+        .file ⟨9, 3, 5, some (.obj [("p", .int 1), ("cfg", .obj [("n", .int 2), ("m", .int 3)])])⟩),
+      (WS, .dir [("j1", .dir exDocSrcJob), ("j2", .dir exDocSrcJob)])],
+    dst := [(Extracted.FN_PROJECT_DOCUMENT,
+        .file ⟨10, 3, 5, some (.obj [("cfg", .obj [("n", .int 5), ("z", .int 0)]), ("q", .int 7)])⟩),
+      (WS, .dir [("j1", .dir exDocDstJob), ("j9", .dir exDstJob)])] }
+
+example : DocPatOk exDocOpts := ⟨by decide, by decide⟩
+
+theorem exDoc_hyp : SyncHyp exDocOpts exDocWorld.src := by
+  have hj : NodupKeysObj (docOf Extracted.FN_JOB_DOCUMENT exDocSrcJob) := by
+    simp [docOf, getE, exDocSrcJob, exSrcJob, NodupKeysObj, NodupKeysVal,
+      Extracted.FN_JOB_DOCUMENT, Extracted.FN_STATE_POINT]
+  refine ⟨Or.inr (Or.inr ?_), ?_⟩
+  · simp [docOf, getE, exDocWorld, NodupKeysObj, NodupKeysVal]
+  · intro id sjob h
+    refine Or.inr (Or.inr ⟨⟨by decide, by decide⟩, ?_⟩)
+    have hws : wsOf exDocWorld.src = [("j1", .dir exDocSrcJob), ("j2", .dir exDocSrcJob)] := by rfl
+    rw [hws] at h
+    simp only [getE] at h
+    split at h
+    · cases h; exact hj
+    · split at h
+      · cases h; exact hj
+      · cases h
+
+example : WFEntries exDocWorld.src ∧ exDocOpts.dry = false ∧
+    (run exDocOpts .project exDocWorld).err = none ∧
+    (run exDocOpts (.job "j1" "j1" 1) exDocWorld).err = none :=
+  ⟨by simp [WFEntries, WFNode, exDocWorld, exDocSrcJob, exSrcJob, names, WS,
+      Extracted.FN_JOB_DOCUMENT, Extracted.FN_STATE_POINT, Extracted.FN_PROJECT_DOCUMENT],
+   rfl, by decide, by decide⟩
+
+theorem exDoc_wf : WFEntries exDocWorld.src := by
+  simp [WFEntries, WFNode, exDocWorld, exDocSrcJob, exSrcJob, names, WS,
+    Extracted.FN_JOB_DOCUMENT, Extracted.FN_STATE_POINT, Extracted.FN_PROJECT_DOCUMENT]
+
+/-- the theorem applied: the second project sync and the second job sync of the example -/
+example : (run exDocOpts .project (exDocWorld.after exDocOpts .project)).err = none ∧
+    (run exDocOpts .project (exDocWorld.after exDocOpts .project)).d =
+      (exDocWorld.after exDocOpts .project).dst :=
+  sync_idempotent_full_partial exDocOpts .project exDocWorld exDoc_wf rfl exDoc_hyp (by decide)
+
+example : (run exDocOpts (.job "j1" "j1" 1) (exDocWorld.after exDocOpts (.job "j1" "j1" 1))).err = none ∧
+    (run exDocOpts (.job "j1" "j1" 1) (exDocWorld.after exDocOpts (.job "j1" "j1" 1))).d =
+      (exDocWorld.after exDocOpts (.job "j1" "j1" 1)).dst :=
+  sync_idempotent_full_partial exDocOpts (.job "j1" "j1" 1) exDocWorld exDoc_wf rfl exDoc_hyp (by decide)
+
+/-- the first project sync of the example really changes the destination (a job is cloned) -/
+example : getE "j2" (wsOf exDocWorld.dst) = none ∧
+    (getE "j2" (wsOf (exDocWorld.after exDocOpts .project).dst)).isSome = true :=
+  ⟨by decide, by decide⟩
+
+
 end Signac.C13
+
